@@ -388,6 +388,25 @@ impl<'tcx> Cx<'tcx> {
             "args_full",
             J::Arr(args.iter().map(|a| J::s(with_no_trimmed_paths!(a.to_string()))).collect()),
         );
+        if let DefKind::Ctor(of, _) = tcx.def_kind(d) {
+            // tuple-struct / tuple-variant constructor used as a function value
+            let mut c = J::obj();
+            let parent = tcx.parent(d);
+            match of {
+                rustc_hir::def::CtorOf::Variant => {
+                    c.set("variant", J::s(tcx.item_name(parent).to_string()));
+                    let en = tcx.parent(parent);
+                    c.set("adt", J::s(tcx.item_name(en).to_string()));
+                    c.set("adt_path", J::s(self.path(en)));
+                }
+                rustc_hir::def::CtorOf::Struct => {
+                    c.set("variant", J::s(tcx.item_name(parent).to_string()));
+                    c.set("adt", J::s(tcx.item_name(parent).to_string()));
+                    c.set("adt_path", J::s(self.path(parent)));
+                }
+            }
+            o.set("ctor", c);
+        }
         if matches!(tcx.def_kind(d), DefKind::AssocFn) {
             if let Some(tr) = tcx.trait_of_assoc(d) {
                 o.set("trait", J::s(tcx.item_name(tr).to_string()));
